@@ -8,7 +8,7 @@ if [ ! -d $W ]; then git -C /repo worktree add -q --detach $W HEAD || exit 2; fi
 git -C $W checkout -q -- .
 mkdir -p $W/.b && cd $W/.b
 cmake -G Ninja $W -DCMAKE_BUILD_TYPE=Release -DBUILD_TESTING=ON -DCMAKE_OUTPUT_DIRECTORY=$W/.b/bin > $LOG/cmake.log 2>&1
-build() { nice ninja -j10 SvtAv1EncApp SvtAv1DecApp SvtAv1ApiTests > $LOG/build_$1.log 2>&1; echo $?; }
+build() { nice ninja -j10 all SvtAv1ApiTests > $LOG/build_$1.log 2>&1; echo $?; }
 apitests() { LD_LIBRARY_PATH=$W/.b/bin $W/.b/bin/SvtAv1ApiTests --gtest_output=xml:$LOG/api_$1.xml > /dev/null 2>&1; python3 - $LOG/api_$1.xml <<'PY'
 import sys, json, xml.etree.ElementTree as ET
 passed=set()
@@ -23,8 +23,9 @@ rm -rf /tmp/cf-refbin; cp -a $W/.b/bin /tmp/cf-refbin
 for spec in "$@"; do
   IFS=: read name prop dir <<< "$spec"
   echo "=== $name $prop"
-  ( cd $dir && timeout 1200 bash ./run.sh /tmp/cf-refbin > $LOG/${name}_${prop}_ref.log 2>&1; echo "demo on unchanged tree: exit $?" )
-  git -C $W checkout -q -- . ; git -C $W apply $dir/patch.diff || { echo "patch failed"; continue; }
+  git -C $W checkout -q -- . ; echo "reference rebuild rc=$(build ref_$prop)"
+  ( cd $dir && timeout 1800 bash ./run.sh $W/.b/bin > $LOG/${name}_${prop}_ref.log 2>&1; echo "demo on unchanged tree: exit $?" )
+  git -C $W apply $dir/patch.diff || { echo "patch failed"; continue; }
   echo "changed build rc=$(build ${name}_$prop)"; apitests ${name}_$prop
   ( cd $dir && timeout 1200 bash ./run.sh $W/.b/bin > $LOG/${name}_${prop}_mut.log 2>&1; echo "demo on changed tree: exit $?" )
   git -C $W checkout -q -- .
